@@ -458,13 +458,11 @@ func c07c(c *Ctx) {
 		name, field string
 	}
 	for _, b := range []bind{{2, "maxLineLength", "MaxLineLength"}, {3, "cursorOverlapWidth", "CursorOverlapWidth"}, {4, "fontId", ""}, {5, "numLines", "NumLines"}} {
-		var leaves []ssa.Value
-		phiLeaves(args[b.idx], map[ssa.Value]bool{}, &leaves)
 		named, fallback := false, false
 		bad := ""
-		for _, lf := range leaves {
-			t := c.term(fn, lf)
-			in, isInstr := lf.(ssa.Instruction)
+		for _, dl := range c.deepLeaves(fn, args[b.idx], 2) {
+			t := dl.term
+			in, isInstr := dl.inFn, dl.inFn != nil
 			if isInstr {
 				for _, l := range c.mustLits(fn, in.Block()) {
 					for _, nm := range []string{"fontId", "maxLineLength", "numLines", "cursorOverlapWidth"} {
@@ -520,11 +518,9 @@ func c07c(c *Ctx) {
 	})
 	c.Check(okDup, "named/duplicate-rejected", c.W.FuncPos(fn), "a named parameter is recorded only after the duplicate test on the same name", "named parameters are recorded without a check-before-insert on the same name")
 	// unnamed: INT -> maxLineLength, STRING -> fontId
-	var lv []ssa.Value
-	phiLeaves(args[2], map[ssa.Value]bool{}, &lv)
 	okInt := false
-	for _, lf := range lv {
-		if in, ok := lf.(ssa.Instruction); ok && strings.Contains(c.term(fn, lf), "strconv.ParseInt(") {
+	for _, dl := range c.deepLeaves(fn, args[2], 2) {
+		if in := dl.inFn; in != nil && strings.Contains(dl.term, "strconv.ParseInt(") {
 			must := c.mustLits(fn, in.Block())
 			if !containsSub(must, `.Literal == "`) {
 				okInt = true
